@@ -1565,3 +1565,236 @@ def _op(ev, f):
     if k not in _OPS:
         _OPS[k] = ev.new_object(f.get("cls") or "op")
     return _OPS[k]
+
+
+# ---------------------------------------------------------------------------
+# F7: signedness of DW_AT_const_value follows the DIE's type chain
+
+def f7(prog, tier="quick"):
+    """handle_at_dependent_value (with handle_encoding*, is_block and its local lambdas) interpreted from source for DW_AT_const_value
+    on abstract type graphs: a variable or enumerator whose DW_AT_type leads through 0-2 typedef / const / volatile DIEs to a base type
+    of every encoding the decoder knows, a pointer, or an enumeration type (with its own encoding, with an underlying DW_AT_type, or with
+    nothing but the forms of its enumerators).  The terminal decoders are summarised by what they stand for.  Expected per DWARF:
+    signed encodings -> signed, unsigned/address/UTF -> unsigned, boolean -> boolean domain, pointer -> address domain, enumeration
+    without encoding -> the underlying type's, else the common form of the enumerators (sdata -> signed, udata -> unsigned)."""
+    import itertools
+    from cxxobj import CxxEvaluator, Obj, Struct, Sym, StdStr, OutOfBounds, VarPtr, Ptr
+    from absint import Thrown
+    inst, findings = [], []
+    f = prog.func_opt("(anonymous namespace)::handle_at_dependent_value")
+    if f is None:
+        raise Broken("anchor handle_at_dependent_value vanished")
+    E, T, A, F = {}, {}, {}, {}
+    for e in prog.enums.values():
+        if e["file"] == "/usr/include/dwarf.h":
+            for c in e["consts"]:
+                for pre, d in (("DW_ATE_", E), ("DW_TAG_", T), ("DW_AT_", A), ("DW_FORM_", F)):
+                    if c["n"].startswith(pre):
+                        d[c["n"][len(pre):]] = c["v"]
+    if not (E and T and A and F):
+        raise Broken("dwarf.h enumerators not found")
+
+    class Node:
+        def __init__(self, tag, name=None):
+            self.tag, self.attrs, self.children, self.name = T[tag], {}, [], name
+            self.addr = id(self)
+
+    def die_of(x):
+        return x.die if isinstance(x, Struct) and hasattr(x, "die") else None
+
+    def mkdie(n):
+        return Struct("Dwarf_Die", {"die": n})
+
+    def fill_attr(mem, node, code):
+        form, val = node.attrs[code]
+        for k, v in (("code", code), ("form", form), ("val", val), ("owner", node), ("valp", (id(node), code)), ("cu", 1)):
+            setattr(mem, k, v)
+        return mem
+
+    def attr_integrate(ev, o, a):
+        d, code, mem = die_of(a[0]), int(a[1][2] if isinstance(a[1], tuple) else a[1]), a[2]
+        if code in d.attrs:
+            return fill_attr(mem, d, code)
+        return None
+
+    def formref(ev, o, a):
+        at, mem = a
+        if not isinstance(getattr(at, "val", None), Node):
+            return None
+        mem.die = at.val
+        return mem
+
+    def formudata(ev, o, a):
+        at, out = a
+        if isinstance(at.val, Node):
+            return -1
+        out.store(at.val)
+        return 0
+
+    class ChildIt:
+        def __init__(self, node, pos):
+            self.node, self.pos = node, pos
+            self.addr = id(self)
+
+        def at_end(self):
+            return self.node is None or self.pos >= len(self.node.children)
+
+        def copy_value(self):
+            return ChildIt(self.node, self.pos)
+
+        def assign_from(self, o):
+            self.node, self.pos = o.node, o.pos
+
+    def ci_inc(ev, o, a):
+        if a:
+            old = o.copy_value()
+            o.pos += 1
+            return old
+        o.pos += 1
+        return o
+    code_of = lambda x: int(x[2]) if isinstance(x, tuple) else int(x)
+    warnings = []
+    hooks = {
+        "value_die::get_die": lambda ev, o, a: o.m_die,
+        "value_die::get_parent": lambda ev, o, a: o.parent,
+        "dwarf_whatattr": lambda ev, o, a: a[0].code,
+        "dwarf_whatform": lambda ev, o, a: a[0].form,
+        "dwarf_tag": lambda ev, o, a: die_of(a[0]).tag,
+        "dwarf_hasattr_integrate": lambda ev, o, a: 1 if code_of(a[1]) in die_of(a[0]).attrs else 0,
+        "dwarf_hasattr": lambda ev, o, a: 1 if code_of(a[1]) in die_of(a[0]).attrs else 0,
+        "dwarf_attr_integrate": attr_integrate,
+        "dwarf_attr": attr_integrate,
+        "dwarf_formref_die": formref,
+        "dwarf_formudata": formudata,
+        "dwarf_diename": lambda ev, o, a: (Ptr([ord(c) for c in die_of(a[0]).name] + [0], 0) if die_of(a[0]).name else None),
+        "dwarf_errno": lambda ev, o, a: 0,
+        "dwarf_dieoffset": lambda ev, o, a: 0x42,
+        "ctor:child_iterator": lambda ev, o, a: (a[0].copy_value() if isinstance(a[0], ChildIt) else ChildIt(die_of(a[0]), 0)) if a else ChildIt(None, 0),
+        "child_iterator::end": lambda ev, o, a: ChildIt(None, 0),
+        "child_iterator::operator!=": lambda ev, o, a: not (o.at_end() and a[0].at_end()),
+        "child_iterator::operator==": lambda ev, o, a: o.at_end() and a[0].at_end(),
+        "child_iterator::operator++": ci_inc,
+        "child_iterator::operator*": lambda ev, o, a: mkdie(o.node.children[o.pos]),
+        "(anonymous namespace)::atval_signed": lambda ev, o, a: ("signed", None),
+        "(anonymous namespace)::atval_unsigned": lambda ev, o, a: ("unsigned", "dec"),
+        "(anonymous namespace)::atval_unsigned_with_domain": lambda ev, o, a: ("unsigned", a[1]),
+        "(anonymous namespace)::extract_unsigned": lambda ev, o, a: a[0].raw,
+        "(anonymous namespace)::pass_single_value": lambda ev, o, a: ("unsigned", "dec") if a and isinstance(a[0], tuple) and a[0][0] == "vcst" else ("value", a[0] if a else None),
+        "(anonymous namespace)::pass_block": lambda ev, o, a: ("block", None),
+        "dwarf_formblock": lambda ev, o, a: -1,
+        "throw_libdw": lambda ev, o, a: (_ for _ in ()).throw(Thrown("libdw error")),
+        "dw_address_dom": lambda ev, o, a: "address",
+        "dw_encoding_dom": lambda ev, o, a: Sym.of("encoding-dom"),
+        "ctor:ios_flag_saver": lambda ev, o, a: None,
+        "std::make_unique<value_cst*": lambda ev, o, a: ("vcst", a[0]),
+        "value_cst::get_constant": lambda ev, o, a: o.cst,
+        "constant::value": lambda ev, o, a: o,
+        "mpz_class::is_unsigned": lambda ev, o, a: True,
+        "mpz_class::uval": lambda ev, o, a: o.u,
+    }
+
+    class Raw:
+        """what extract_unsigned yields: the datum read as unsigned"""
+        def __init__(self, u):
+            self.u, self.cst = u, self
+            self.addr = id(self)
+
+        def copy_value(self):
+            return self
+    ev = CxxEvaluator(hooks, {"bool_constant_dom": "bool", "dec_constant_dom": "dec", "hex_constant_dom": "hex", "std::cerr": None}, prog=prog)
+    from cxxobj import OStream
+    ev.globals["std::cerr"] = OStream()
+    signed_enc = ("signed", "signed_char")
+    unsigned_enc = ("unsigned", "unsigned_char", "address", "UTF")
+    peel_tags = ("typedef", "const_type", "volatile_type")
+    cases = []
+    for npeel in (0, 1, 2):
+        for enc in signed_enc + unsigned_enc + ("boolean",):
+            cases.append(("base", npeel, enc))
+        cases.append(("pointer", npeel, None))
+    for npeel in (0, 1):
+        for enc in ("signed", "unsigned"):
+            cases.append(("enum-enc", npeel, enc))
+            cases.append(("enum-typed", npeel, enc))
+        for forms in (("sdata", "sdata"), ("udata", "udata"), ("udata",), ("sdata",), ("udata", "sdata"), ("sdata", "udata")):
+            cases.append(("enum-forms", npeel, forms))
+    n = 0
+    key = "F7:const_value"
+    bad = None
+
+    def chain(target, npeel):
+        cur = target
+        for i in range(npeel):
+            p = Node(peel_tags[i % len(peel_tags)])
+            p.attrs[A["type"]] = (F["ref4"], cur)
+            cur = p
+        return cur
+    try:
+        for kind, npeel, what in cases:
+            for via_enumerator in (False, True) if kind.startswith("enum") else (False,):
+                if kind == "base":
+                    tgt = Node("base_type", "t")
+                    tgt.attrs[A["encoding"]] = (F["data1"], E[what])
+                    exp = ("signed", None) if what in signed_enc else (("unsigned", "bool") if what == "boolean" else ("unsigned", "dec"))
+                elif kind == "pointer":
+                    tgt = Node("pointer_type")
+                    exp = ("unsigned", "address")
+                else:
+                    tgt = Node("enumeration_type", "e")
+                    if kind == "enum-enc":
+                        tgt.attrs[A["encoding"]] = (F["data1"], E[what])
+                        exp = ("signed", None) if what == "signed" else ("unsigned", "dec")
+                    elif kind == "enum-typed":
+                        under = Node("base_type", "u")
+                        under.attrs[A["encoding"]] = (F["data1"], E[what])
+                        tgt.attrs[A["type"]] = (F["ref4"], chain(under, 1))
+                        exp = ("signed", None) if what == "signed" else ("unsigned", "dec")
+                    else:
+                        for fm in what:
+                            en = Node("enumerator", "k")
+                            en.attrs[A["const_value"]] = (F[fm], 1)
+                            tgt.children.append(en)
+                        exp = ("signed", None) if set(what) == {"sdata"} else ("unsigned", "dec")
+                if via_enumerator:
+                    if kind == "enum-forms":
+                        continue          # an enumerator of an untyped enumeration is reported as "unexpected": not a documented case
+                    if kind == "enum-enc":
+                        continue          # the code requires DW_AT_type on the enumeration for data-form enumerators
+                    holder = Node("enumerator", "k")
+                    tgt.children.append(holder)
+                    parent_die = tgt
+                else:
+                    holder = Node("variable", "v")
+                    holder.attrs[A["type"]] = (F["ref4"], chain(tgt, npeel))
+                    parent_die = None
+                holder.attrs[A["const_value"]] = (F["data1"], 0xff)
+                attr = Struct("Dwarf_Attribute", {})
+                fill_attr(attr, holder, A["const_value"])
+                attr.raw = Raw(0xff)
+                vd = Obj("value_die")
+                vd.m_die = mkdie(holder)
+                if parent_die is not None:
+                    pv = Obj("value_die")
+                    pv.m_die = mkdie(parent_die)
+                    vd.parent = pv
+                r = ev.call(f, None, [attr, vd, Sym.of("dwctx")])
+                n += 1
+                got = r if isinstance(r, tuple) else ("?", r)
+                got = (got[0], got[1] if not isinstance(got[1], Sym) else got[1].q)
+                if got != exp and bad is None:
+                    desc = "%s%s whose type is %s%s" % ("an enumerator of " if via_enumerator else "a variable ", "" if not via_enumerator else "an enumeration", (" reached through %d typedef/cv DIEs: " % npeel) if npeel else "",
+                                                          {"base": "a base type with encoding DW_ATE_%s" % what, "pointer": "a pointer type", "enum-enc": "an enumeration with encoding DW_ATE_%s" % what,
+                                                           "enum-typed": "an enumeration whose underlying type has encoding DW_ATE_%s" % what,
+                                                           "enum-forms": "an enumeration without encoding whose enumerators use the forms %s" % (list(what),)}[kind])
+                    bad = "DW_AT_const_value (data form) of %s is decoded as %s%s; expected %s%s" % (
+                        desc, got[0], (" in the %s domain" % got[1]) if got[1] else "", exp[0], (" in the %s domain" % exp[1]) if exp[1] else "")
+    except OutOfBounds as x:
+        raise Broken("handle_at_dependent_value cannot be evaluated: %s" % x)
+    except Thrown as x:
+        bad = bad or "decoding DW_AT_const_value raises an error (%s) on a well-formed type chain" % x
+    inst.append((key, {"type_graphs": n}))
+    if n < 30:
+        raise Broken("only %d type graphs evaluated (floor 30)" % n)
+    if bad:
+        findings.append({"key": key, "where": "libzwerg/" + f["l"], "msg": bad, "detail": None})
+    return inst, findings
